@@ -337,6 +337,25 @@ def run(world, rep, tier, only=None):
                    "`%s` (line %d) lies under `new_blk - old_blk > 0`: guards %s" %
                    (sn.text()[:20], sn.line, [("" if t else "!") + T.pp(a)[:30] for t, a in lits][-3:]))
 
+    # ------------------------------------------------------------------ C08.i a renumbered inode takes the superblock's reference along
+    # Shrinking gives inodes of the groups that go away new numbers; directory entries and EA references are rewritten
+    # through the inode map.  The superblock, too, names inodes by number (quota files, the orphan file): for every
+    # such field (the *_inum fields of the on-disk superblock other than the journal's, which is a reserved inode) the
+    # routine that renumbers stores the new number.
+    isf = prog.fn("inode_scan_and_fix", RZ)
+    sbrec = world.records.get("ext2_super_block") or {}
+    # (s_journal_inum: a reserved inode, never renumbered; s_snapshot_inum: a feature e2fsprogs neither creates nor resizes)
+    inum_fields = sorted(f_["n"] for f_ in sbrec.get("fields", []) if f_["n"].endswith("_inum") and
+                         f_["n"] not in ("s_journal_inum", "s_snapshot_inum"))
+    rep.floor("C08.i inode-number fields of the superblock", len(inum_fields), 3)
+    maps = calls_to(isf, "ext2fs_add_extent_entry")
+    rep.floor("C08.i inode map entries in inode_scan_and_fix", len(maps), 1)
+    for fld in inum_fields:
+        st = [n for n in isf.events("S") if T.last_field(n.ev["lhs"]) == ("ext2_super_block", fld) and
+              T.path(n.ev.get("rhs")) is not None and any(T.path(n.ev.get("rhs")) == T.path(arg(m, 2)) for m in maps)]
+        rep.ob("C08.i", site(isf, "superblock field %s follows a renumbered inode" % fld), bool(st),
+               "inode_scan_and_fix() stores the new inode number into super->%s" % fld)
+
     # ------------------------------------------------------------------ C08.h a helper that changes the caller's inode says so
     # migrate_ea_block() re-points i_file_acl in the inode copy it is given; inode_scan_and_fix() writes that copy back
     # only when the helper raised *changed.  Every successful return after the re-pointing must have raised it.
